@@ -60,6 +60,9 @@ CHECKS = {
  "C19": ("Differential testing against brute-force set-theoretic constructions: Hypothesis-generated hypergraphs x all 32 cleanup flag combinations x in_place, selections and orders",
          "Exploration with an exhaustive flag grid per input: every generated hypergraph is run through all 32 cleanup combinations in both modes and compared (through the recorded old labels) with a construction written from the definition, so that nothing beyond what the guarantees exclude is deleted or merged; relabelling, subhypergraph, dual / dual-of-dual, <<, complement, cut_to_order, k_skeleton, from_max_simplices and largest_connected_hypergraph are compared with their set definitions.",
          "Ties between largest components accepted; cleanup(connected=True) on a network left without nodes is outside the domain (counted).", "DESIGN.md#C19"),
+ "C20": ("Hypothesis-generated networks x layout options x drawing function x style mode; the matplotlib artists returned on the Agg backend are inspected against the supplied positions",
+         "Exploration: every layout function must return exactly one finite 2-vector per node (bipartite: also per edge); barycenters are recomputed; draw / draw_nodes / draw_hyperedges / draw_simplices are called with scalar, list, dict and stat-valued styles and the returned collections are compared with the network: scatter offsets in node order, line segments = two-node edges, polygons = larger edges up to max_order (maximal simplices for complexes), as multisets of vertex sets. Any exception from a drawing call is a violation ('drawing succeeds').",
+         "Convex-hull drawing and label artists are not inspected; per-ID dict styles are not exercised for draw_simplices (it re-indexes what it draws).", "DESIGN.md#C20"),
  "C05": ("Model-based testing: Hypothesis-generated histories applied step by step to xgi and to reference models transcribed from the docstrings (three classes), metamorphic relations for the degree-preserving moves",
          "Exploration by refinement checking against an executable specification: every op of a generated history is applied to the implementation and to the model (parametric in fresh IDs, prefix semantics for bulk calls) and the observable snapshots are compared after every step, including after rejected calls and their exception types.",
          "The models are my transcription of the documentation; inputs the documentation leaves contradictory are excluded by construction and counted (see assumptions in the evidence).", "DESIGN.md#C05"),
@@ -84,6 +87,7 @@ def main():
     props = [json.loads(l)["id"] for l in open(os.path.join(ROOT, "properties.jsonl"))]
     claimed = {c["property_id"] for c in checks}
     na = [{"property_id": p, "reason": "check not built yet in this revision (planned, see DESIGN.md section 3); not a statement that the technique cannot apply"} for p in props if p not in claimed]
+    assert not na, na
     m = {
         "version": 1,
         "setup_cmd": "./setup.sh",
